@@ -289,5 +289,255 @@ theorem groupbyLoop_eq [DecidableEq κ] (key : α → κ) (gk : κ) (values xs :
     · simp [groupbyLoop, h, ih, groupRuns_cons]
 
 
+/-! count / repeat / cycle -/
+
+theorem countLoop_eq (step : Int) (k : Nat) (n : Int) :
+    countLoop step k n = (List.range k).map fun (i : Nat) => n + (i : Int) * step := by
+  induction k generalizing n with
+  | zero => simp [countLoop]
+  | succ k ih =>
+    rw [countLoop, ih, List.range_succ_eq_map]
+    simp only [List.map_cons, List.map_map]
+    congr 1
+    · simp
+    · apply List.map_congr_left
+      intro i _
+      simp only [Function.comp, Nat.succ_eq_add_one, Int.natCast_add, Int.add_mul]
+      omega
+
+theorem repeatLoop_eq (x : α) (k r : Nat) : repeatLoop x k r = List.replicate (min k r) x := by
+  induction k generalizing r with
+  | zero => simp [repeatLoop]
+  | succ k ih =>
+    cases r with
+    | zero => simp [repeatLoop]
+    | succ r => simp [repeatLoop, ih, Nat.succ_min_succ, List.replicate_succ]
+
+theorem cycleFirst_eq (k : Nat) (xs saved : List α) :
+    cycleFirst k xs saved = (xs.take k, k - xs.length, saved ++ xs.take k, decide (xs.length < k)) := by
+  induction k generalizing xs saved with
+  | zero => simp [cycleFirst]
+  | succ k ih =>
+    cases xs with
+    | nil => simp [cycleFirst]
+    | cons x xs => simp [cycleFirst, ih]
+
+theorem cycleRest_eq (saved : List α) (hs : saved ≠ []) (k : Nat) (cur : List α) (m : Nat)
+    (hm : k ≤ m) :
+    cycleRest saved k cur = (cur ++ (List.replicate m saved).flatten).take k := by
+  induction k generalizing cur m with
+  | zero => simp [cycleRest]
+  | succ k ih =>
+    cases cur with
+    | cons x cur => simp [cycleRest, ih cur m (by omega)]
+    | nil =>
+      cases saved with
+      | nil => exact absurd rfl hs
+      | cons s ss =>
+        obtain ⟨m', rfl⟩ : ∃ m', m = m' + 1 := ⟨m - 1, by omega⟩
+        rw [cycleRest, ih ss m' (by omega)]
+        simp [List.replicate_succ]
+
+theorem impl_cycle_eq (take : Nat) (xs : List α) : impl_cycle take xs = spec_cycle take xs := by
+  unfold impl_cycle spec_cycle
+  rw [cycleFirst_eq]
+  simp only [List.nil_append]
+  by_cases h : xs.length < take
+  · have ht : xs.take take = xs := List.take_of_length_le (by omega)
+    simp only [h, decide_true, Bool.not_true, ht]
+    by_cases h0 : xs = []
+    · subst h0; simp
+    · have hl : 0 < xs.length := List.length_pos_iff.mpr h0
+      obtain ⟨t, rfl⟩ : ∃ t, take = t + 1 := ⟨take - 1, by omega⟩
+      simp only [h0, List.isEmpty_iff, if_false, Bool.false_eq_true]
+      rw [cycleRest_eq xs h0 _ [] t (by omega)]
+      have e : t + 1 = xs.length + (t + 1 - xs.length) := by omega
+      rw [List.replicate_succ, List.flatten_cons]
+      conv => rhs; rw [e, List.take_length_add_append]
+      simp
+  · simp only [h, decide_false, Bool.not_false, if_true]
+    cases take with
+    | zero => simp
+    | succ t =>
+      rw [List.replicate_succ, List.flatten_cons, List.take_append_of_le_length (by omega)]
+
+
+/-! zip_longest -/
+
+/-- number of iterators still marked active whose source is exhausted -/
+def zlE : List (Bool × List α) → Nat
+  | [] => 0
+  | (true, []) :: its => zlE its + 1
+  | _ :: its => zlE its
+
+/-- number of active iterators that still have an element -/
+def zlN : List (Bool × List α) → Nat
+  | [] => 0
+  | (true, _ :: _) :: its => zlN its + 1
+  | _ :: its => zlN its
+
+def zlRow (fill : α) : List (Bool × List α) → List α
+  | [] => []
+  | (true, x :: _) :: its => x :: zlRow fill its
+  | _ :: its => fill :: zlRow fill its
+
+def zlAdv : List (Bool × List α) → List (Bool × List α)
+  | [] => []
+  | (true, _ :: r) :: its => (true, r) :: zlAdv its
+  | (true, []) :: its => (false, []) :: zlAdv its
+  | (false, r) :: its => (false, r) :: zlAdv its
+
+theorem zlRound_eq (fill : α) (its : List (Bool × List α)) (na : Nat) :
+    zlRound fill its na =
+      if zlE its = 0 ∨ zlE its < na then some (zlRow fill its, zlAdv its, na - zlE its)
+      else none := by
+  induction its generalizing na with
+  | nil => simp [zlRound, zlE, zlRow, zlAdv]
+  | cons p its ih =>
+    obtain ⟨a, r⟩ := p
+    cases a with
+    | false =>
+      simp only [zlRound, ih, zlE, zlRow, zlAdv]
+      split <;> simp [*]
+    | true =>
+      cases r with
+      | cons x r =>
+        simp only [zlRound, ih, zlE, zlRow, zlAdv]
+        split <;> simp [*]
+      | nil =>
+        simp only [zlRound, ih, zlE, zlRow, zlAdv]
+        by_cases h1 : na - 1 = 0
+        · have : ¬ (zlE its + 1 = 0 ∨ zlE its + 1 < na) := by omega
+          simp [h1]; omega
+        · simp only [h1, if_false]
+          by_cases h2 : zlE its = 0 ∨ zlE its < na - 1
+          · have : zlE its + 1 = 0 ∨ zlE its + 1 < na := by omega
+            simp only [h2, this, if_true, Option.map_some]
+            congr 3; omega
+          · have : ¬ (zlE its + 1 = 0 ∨ zlE its + 1 < na) := by omega
+            simp [h2]; omega
+
+/-- loop invariant: a deactivated iterator is exhausted -/
+def zlInv (its : List (Bool × List α)) : Prop := ∀ p ∈ its, p.1 = false → p.2 = []
+
+theorem zlInv_adv (its : List (Bool × List α)) (h : zlInv its) : zlInv (zlAdv its) := by
+  induction its with
+  | nil => intro p hp; simp [zlAdv] at hp
+  | cons q its ih =>
+    have hq := h q (List.mem_cons_self ..)
+    have ht : zlInv its := fun p hp => h p (List.mem_cons_of_mem _ hp)
+    obtain ⟨a, r⟩ := q
+    cases a <;> cases r <;> intro p hp <;> simp only [zlAdv, List.mem_cons] at hp <;>
+      rcases hp with rfl | hp <;> first | exact ih ht p hp | simp_all
+
+theorem zlN_eq_zero_iff (its : List (Bool × List α)) (h : zlInv its) :
+    zlN its = 0 ↔ maxLen (its.map (·.2)) = 0 := by
+  induction its with
+  | nil => simp [zlN, maxLen]
+  | cons q its ih =>
+    have hq := h q (List.mem_cons_self ..)
+    have ht : zlInv its := fun p hp => h p (List.mem_cons_of_mem _ hp)
+    obtain ⟨a, r⟩ := q
+    cases a <;> cases r <;> simp_all [zlN, maxLen] <;> omega
+
+/-- active iterators after a pass = those that produced an element -/
+theorem zl_active_adv (its : List (Bool × List α)) :
+    zlN (zlAdv its) + zlE (zlAdv its) = zlN its := by
+  induction its with
+  | nil => simp [zlN, zlE, zlAdv]
+  | cons q its ih =>
+    obtain ⟨a, r⟩ := q
+    cases a <;> cases r <;> (try rename_i x r; cases r) <;> simp_all [zlN, zlE, zlAdv] <;> omega
+
+theorem maxLen_tail (xss : List (List α)) : maxLen (xss.map List.tail) = maxLen xss - 1 := by
+  induction xss with
+  | nil => simp [maxLen]
+  | cons xs xss ih => simp [maxLen, ih]; omega
+
+theorem zlAdv_rests (its : List (Bool × List α)) (h : zlInv its) :
+    (zlAdv its).map (·.2) = (its.map (·.2)).map List.tail := by
+  induction its with
+  | nil => simp [zlAdv]
+  | cons q its ih =>
+    have hq := h q (List.mem_cons_self ..)
+    have ht : zlInv its := fun p hp => h p (List.mem_cons_of_mem _ hp)
+    obtain ⟨a, r⟩ := q
+    cases a <;> cases r <;> simp_all [zlAdv]
+
+theorem zlRow_eq (fill : α) (its : List (Bool × List α)) (h : zlInv its) :
+    zlRow fill its = (its.map (·.2)).map fun xs => xs.getD 0 fill := by
+  induction its with
+  | nil => simp [zlRow]
+  | cons q its ih =>
+    have hq := h q (List.mem_cons_self ..)
+    have ht : zlInv its := fun p hp => h p (List.mem_cons_of_mem _ hp)
+    obtain ⟨a, r⟩ := q
+    cases a <;> cases r <;> simp_all [zlRow]
+
+def rowsOf (fill : α) (xss : List (List α)) : List (List α) :=
+  (List.range (maxLen xss)).map fun i => xss.map fun xs => xs.getD i fill
+
+theorem rowsOf_step (fill : α) (xss : List (List α)) (h : maxLen xss ≠ 0) :
+    rowsOf fill xss = (xss.map fun xs => xs.getD 0 fill) :: rowsOf fill (xss.map List.tail) := by
+  unfold rowsOf
+  obtain ⟨m, hm⟩ : ∃ m, maxLen xss = m + 1 := ⟨maxLen xss - 1, by omega⟩
+  rw [maxLen_tail, hm, List.range_succ_eq_map]
+  simp only [List.map_cons, List.map_map, Nat.add_sub_cancel]
+  congr 1
+  apply List.map_congr_left
+  intro i _
+  simp only [Function.comp]
+  apply List.map_congr_left
+  intro xs _
+  cases xs <;> simp
+
+theorem zlLoop_eq (fill : α) (fuel : Nat) (its : List (Bool × List α)) (hi : zlInv its)
+    (hf : maxLen (its.map (·.2)) < fuel) (ha : 0 < zlN its + zlE its) :
+    zlLoop fill fuel its (zlN its + zlE its) = rowsOf fill (its.map (·.2)) := by
+  induction fuel generalizing its with
+  | zero => omega
+  | succ fuel ih =>
+    rw [zlLoop, zlRound_eq]
+    by_cases hn : zlN its = 0
+    · have hm := (zlN_eq_zero_iff its hi).mp hn
+      have : ¬ (zlE its = 0 ∨ zlE its < zlN its + zlE its) := by omega
+      rw [if_neg this]
+      simp [rowsOf, hm]
+    · have hm : maxLen (its.map (·.2)) ≠ 0 := fun h => hn ((zlN_eq_zero_iff its hi).mpr h)
+      have : zlE its = 0 ∨ zlE its < zlN its + zlE its := by omega
+      rw [if_pos this]
+      simp only []
+      have e : zlN its + zlE its - zlE its = zlN (zlAdv its) + zlE (zlAdv its) := by
+        rw [zl_active_adv]; omega
+      rw [e, ih (zlAdv its) (zlInv_adv its hi)
+        (by rw [zlAdv_rests its hi, maxLen_tail]; omega) (by rw [zl_active_adv]; omega),
+        rowsOf_step fill _ hm, zlRow_eq fill its hi, zlAdv_rests its hi]
+
+
+theorem zl_init (xss : List (List α)) :
+    zlInv (xss.map fun xs => (true, xs)) ∧
+    zlN (xss.map fun xs => (true, xs)) + zlE (xss.map fun xs => (true, xs)) = xss.length ∧
+    (xss.map fun xs => (true, xs)).map (·.2) = xss := by
+  refine ⟨?_, ?_, ?_⟩
+  · intro p hp; simp at hp; obtain ⟨_, _, rfl⟩ := hp; simp
+  · induction xss with
+    | nil => simp [zlN, zlE]
+    | cons xs xss ih => cases xs <;> simp_all [zlN, zlE] <;> omega
+  · induction xss with
+    | nil => rfl
+    | cons xs xss ih => simp_all
+
+theorem impl_zip_longest_eq (fill : α) (xss : List (List α)) :
+    impl_zip_longest fill xss = spec_zip_longest fill xss := by
+  unfold impl_zip_longest spec_zip_longest
+  by_cases h : xss.length = 0
+  · have : xss = [] := List.eq_nil_of_length_eq_zero h
+    subst this; simp [maxLen]
+  · obtain ⟨hi, hc, hr⟩ := zl_init xss
+    simp only [h, if_false]
+    have := zlLoop_eq fill (maxLen xss + 1) _ hi (by rw [hr]; omega) (by rw [hc]; omega)
+    rw [hc, hr] at this
+    rw [this]; rfl
+
 end
 end AnyioModel.Iter
